@@ -148,7 +148,9 @@ def correspond(ctx):
     unit_part(ctx, c)
     shared_part(ctx, c)
     cases, outs = T.nrt_part(ctx, c, ctx.n(150, 1500), MINE, None)
-    T.rt_part(ctx, c, ctx.n(25, 250))
+    T.rt_part(ctx, c, ctx.n(30, 270))
+    # timetag = logical time + latency after a tempo / beats change issued by a LATE routine of that clock (harness oracle)
+    T.probe_part(ctx, c, only_ops=('tempo', 'beats'), modes=('rt',))
     nb = 0
     for o in outs:
         if 'fatal' not in o:
